@@ -606,3 +606,84 @@ Definition evs_of_act (c : N) (a : cact) : list pevent :=
   | ARequeue _ => [EvRequeue c]
   | AExit => [EvGiveUp c; EvExit c]
   end.
+
+(* ------------------------------------------------------------------ *)
+(* 4. HttpRelayClient (after the D15 repair): what happens on ONE client's connection.
+      Mirrors slimta/relay/http.py HttpRelayClient._run / _wait_for_request / _handle_request. *)
+
+Inductive hsrv : Type :=
+| HOk          (* 2xx response *)
+| HRej         (* complete non-2xx response: result.set_exception, the exchange itself is complete *)
+| HRefused     (* connecting fails (on an already open connection: same as HHangup) *)
+| HTimeout     (* gevent.Timeout(relay.timeout) fires inside _handle_request *)
+| HHangup.     (* any other exception during the exchange *)
+
+Inductive hwire : Type :=
+| HRequest (e : N)             (* conn.putrequest(...) for envelope e *)
+| HConnect                     (* http.client opens the socket (lazily, at the first send) *)
+| HResponse (e : N)            (* conn.getresponse() returned *)
+| HCloseW                      (* conn.close() *)
+| HResultW (e : N) (ok : bool). (* ghost: the AsyncResult of envelope e's request is completed *)
+
+Definition hpoll_item : Type := option (request * hsrv).   (* None: idle timeout expired *)
+
+(* _run:  try: while True: _wait_for_request(); if not idle_timeout: break
+          except gevent.Timeout: pass
+          finally: if self.conn: self.conn.close()
+   [conn]: self.conn is an open connection.  Result: wire log, pool-level actions, _run ended? *)
+Fixpoint http_loop (reuse : bool) (conn : bool) (polls : list hpoll_item)
+  : list hwire * list cact * bool :=
+  match polls with
+  | [] => ([], [AEnter], false)                                   (* poll() blocks for ever *)
+  | None :: rest =>
+      (* poll() returned (None, None): `if self.conn: self.conn.close(); self.conn = None` *)
+      let w0 := if conn then [HCloseW] else [] in
+      if reuse then
+        let '(w, a, x) := http_loop reuse false rest in (w0 ++ w, AEnter :: AIdle :: a, x)
+      else (w0, [AEnter; AIdle; AExit], true)
+  | Some (r, h) :: rest =>
+      let e := r_env r in
+      let open := if conn then [] else [HConnect] in
+      let complete (ok : bool) (k : N) :=
+        (* the exchange ran to its end; the connection stays open *)
+        let w1 := HRequest e :: open ++ [HResponse e; HResultW e ok] in
+        if reuse then
+          let '(w, a, x) := http_loop reuse true rest in
+          (w1 ++ w, AEnter :: APoll r :: ADone r k :: a, x)
+        else (w1 ++ [HCloseW], [AEnter; APoll r; ADone r k; AExit], true) in
+      (* the exchange broke: result.set_exception(TransientRelayError); raise -> out of _run;
+         finally: conn.close() *)
+      let broken (w1 : list hwire) :=
+        (w1 ++ [HResultW e false; HCloseW], [AEnter; APoll r; ADone r K_LOST; AExit], true) in
+      match h with
+      | HOk => complete true K_OK
+      | HRej => complete false K_REJECTED
+      | HTimeout => broken (HRequest e :: open)
+      | HRefused => if conn then broken ([HRequest e; HCloseW]) else broken [HRequest e; HConnect]
+      | HHangup => broken (HRequest e :: open ++ [HCloseW])   (* http.client closes the connection
+                                                                  itself when the peer hangs up *)
+      end
+  end.
+
+Definition http_run (reuse : bool) (polls : list hpoll_item) := http_loop reuse false polls.
+
+(* one exchange at a time on the connection, and an exchange that did not run to its end
+   (its result was completed before the response arrived) is followed by close() before the next
+   request *)
+Inductive hstate : Type := HClean | HOpen (e : N) | HDirty.
+
+Fixpoint http_clean (st : hstate) (log : list hwire) : bool :=
+  match log with
+  | [] => true
+  | w :: l =>
+      match w, st with
+      | HRequest e, HClean => http_clean (HOpen e) l
+      | HRequest _, _ => false
+      | HConnect, _ => http_clean st l
+      | HResponse e, HOpen e' => (e =? e') && http_clean HClean l
+      | HResponse _, _ => false
+      | HCloseW, _ => http_clean HClean l
+      | HResultW e _, HOpen e' => (e =? e') && http_clean HDirty l
+      | HResultW _ _, _ => http_clean st l
+      end
+  end.
